@@ -14,7 +14,7 @@ from __future__ import annotations
 import ast
 
 from ..cfg import EXIT, header_parts
-from ..flow import Defs, Scope, bool_eval, guard_facts, inline_predicates, iterations, unreachable_when
+from ..flow import parse_expr, Defs, Scope, bool_eval, guard_facts, inline_predicates, iterations, unreachable_when
 from ..loader import AnalysisError, dotted, norm, walk_no_nested
 from ..report import Ctx
 from ..selftest import Mutant
@@ -115,10 +115,12 @@ def rule_recursion(ctx: Ctx) -> None:
             for x in ast.walk(c.args[1]):
                 if isinstance(x, (ast.Name, ast.Attribute)):
                     tested.setdefault(norm(x).rsplit(".", 1)[-1], []).append(s_)
+    # a dispatch table (`for tp, handler in _TABLE: if isinstance(x, tp): return handler(x)`) names the kinds outside the function
+    table_names = {x.id for c in Scope(ctx, el, wide=True).const_nodes() for x in ast.walk(c) if isinstance(x, ast.Name)}
     for k in ("_LazyFunction", "dict", "tuple", "list", "set"):
         regions = tested.get(k, [])
         rec = any("evaluate_lazy(" in norm(r) or ".evaluate()" in norm(r) for r in regions)
-        ctx.tri("4-recursion", el, regions[0] if regions else el.node, rec, not regions, f"{k}: evaluated recursively", f"evaluate_lazy never tests for `{k}`: lazy values inside a {k} reach the user function unevaluated", f"{k}: branch found but no recursive call recognised", key=f"kind {k}")
+        ctx.tri("4-recursion", el, regions[0] if regions else el.node, rec, not regions and k not in table_names, f"{k}: evaluated recursively", f"evaluate_lazy never tests for `{k}`: lazy values inside a {k} reach the user function unevaluated", f"{k}: branch found but no recursive call recognised", key=f"kind {k}")
     # the evaluated container is rebuilt with a constructor that is known to accept one iterable (the builtin, or a literal /
     # comprehension): `type(x)(generator)` also runs the constructors of subclasses (NamedTuple, ...), which take other arguments
     generic = [c for c in ast.walk(el.node) if isinstance(c, ast.Call) and isinstance(c.func, ast.Call) and dotted(c.func.func) == "type" and c.args and isinstance(c.args[0], (ast.GeneratorExp, ast.ListComp))] + \
@@ -131,7 +133,11 @@ def rule_recursion(ctx: Ctx) -> None:
         splat = [norm(a.value) for a in user[0].args if isinstance(a, ast.Starred)] + [norm(k.value) for k in user[0].keywords if k.arg is None]
         resolved = {norm(t) for s_ in ast.walk(call.node) if isinstance(s_, ast.Assign) and isinstance(s_.value, ast.Call) and dotted(s_.value.func) == "evaluate_lazy" for t in s_.targets}
         resolved |= {x.id for s_ in ast.walk(call.node) if isinstance(s_, ast.Assign) and isinstance(s_.targets[0], ast.Tuple) and "evaluate_lazy(" in norm(s_.value) for x in s_.targets[0].elts if isinstance(x, ast.Name)}
-        missing = [n_ for n_ in splat if n_ not in resolved]
+        # through locals and tuple packing: what each splatted name is computed from
+        from ..flow import dependence_text
+
+        missing = [n_ for n_ in splat if n_ not in resolved and "evaluate_lazy(" not in dependence_text(call.node, ast.Name(id=n_, ctx=ast.Load()))]
+        resolved = resolved | {n_ for n_ in splat if n_ not in missing}
         ctx.tri("4-recursion", call, user[0], bool(splat) and not missing, bool(missing) and bool(resolved), "lazy args and kwargs are evaluated before the wrapped function is called",
                 f"PipeFunc.__call__ never passes {missing} through evaluate_lazy: unevaluated lazy objects reach the user function", "resolution of lazy arguments not recognised", key="call-resolves")
     elz = P.func("pipefunc._pipefunc.PipeFunc._evaluate_lazy")
@@ -161,7 +167,7 @@ def rule_dag(ctx: Ctx) -> None:  # noqa: C901, PLR0915
         cf = ctx.cfg(f)
         n = cf.node_containing(c)
         facts = guard_facts(cf, Defs(f), n) if n is not None else []
-        facts = [(norm(inline_predicates(ctx, f, ast.parse(t, mode="eval").body)), pol) for t, pol in facts]
+        facts = [(norm(inline_predicates(ctx, f, parse_expr(t))), pol) for t, pol in facts]
         state_gated += [t for t, _p in facts if "_evaluated" in t or "_result" in t]
     ctx.add("5-dag", init, init.node, not state_gated, "an edge is registered for every lazy argument, whatever its evaluation state" if not state_gated else
             f"edges are only registered under `{state_gated[0][:60]}`: a dependency on a node that was already evaluated is missing from the task graph", key="edges-unconditional")
@@ -170,7 +176,7 @@ def rule_dag(ctx: Ctx) -> None:  # noqa: C901, PLR0915
     fwd = [c for c in edges if norm(c.args[1]) == "self._id" and norm(c.args[0]) != "self._id"]
     ctx.tri("5-dag", init, (rev or fwd or [init.node])[0], bool(fwd) and not rev, bool(rev), "edges point producer._id -> self._id",
             "edges point from the consumer to its argument: the task graph is reversed (dependencies run after their consumers)", "edge registration not recognised", key="direction")
-    its = [norm(it["iter"]) for f in sc.funcs for it in iterations(f.node)]
+    its = [norm(Defs(f).resolve(it["iter"])) for f in sc.funcs for it in iterations(f.node)]
     pos = any(t in ("self.args", "args") for t in its)
     kw = any(t.endswith("kwargs.values()") for t in its)
     ctx.tri("5-dag", init, init.node, pos and kw, bool(edges) and pos != kw, "edges registered for positional AND keyword arguments",
